@@ -1,20 +1,24 @@
 """C18 - imports expose exactly the exports, once, independent of repetition and order.
 
-Theorems: coq/C18/Properties_C18.v about the Mech model of the run-time loader
-(Interpreter::handle_import_statement + sync_impl_definitions_from_parser + register_impl_definition):
-only_exports_visible, import_idempotent / import_again_is_noop, import_order_independent(+_diamond),
-imported_like_inlined (table level), dotted_path_resolution; five `_refuted` statements = known findings.
+Theorems: coq/C18/Properties_C18.v about the Mech model of the run-time loader as repaired by the fix:
+commits e75028a / 7f2ae2b / 871ed77 / a650333 (Interpreter::handle_import_statement incl. the execution of a
+module's own imports + sync_impl_definitions_from_parser + register_impl_definition): only_exports_visible,
+loaded_modules_are_complete (transitive imports loaded, exports bound), import_idempotent / import_again_is_noop,
+same_modules_loaded + import_order_independent(+_diamond), imported_like_inlined (table level),
+dotted_path_resolution, former_witnesses_repaired; one `_refuted` statement (hidden impl blocks) = known finding.
 
 Tie (every run): generated module trees are written into a scratch directory (nested directories, the
 program is run with cwd there) and
   A. table agreement: the extracted model (bin/c18_model) predicts, for the importing program, which
      names are bound to which definition (functions, qualified names, constants, globals, enums,
-     typedefs, structs, constructors, methods, destructors); a generated main uses every bound name and
-     each not-bound declared name is probed in a tiny program of its own that must end with the
-     undefined-name error.  Also: search-path order (8 candidate locations), module-path forms, name
-     clashes between modules / with the importer (last import wins, local wins), open errors.
+     typedefs, structs incl. array members, constructors, methods, destructors) - including everything
+     loaded transitively; a generated main uses every bound name and each not-bound declared name is
+     probed in a tiny program of its own that must end with the undefined-name error.  Also: search-path
+     order (8 candidate locations), module-path forms, name clashes, open errors.
   B. the property's own oracle: importing program == single-file inlined program == every
-     permutation / duplication of the import list == re-import at run time (stdout, exit status).
+     permutation / duplication of the import list == re-import at run time (stdout, exit status);
+     the import list is in general NOT closed under the modules' own imports.
+  C. corpus/c18.json: the former refutation witnesses must print what the property demands.
 """
 import hashlib
 import itertools
@@ -35,23 +39,25 @@ META = {
                  "loaded_modules invariant, commutation of registration steps lifted to permutations, simulation import = inlined) "
                  "+ extracted-model differential run against the real interpreter on generated module trees",
     "text": "Machine-checked theorems about a Gallina model of Interpreter::handle_import_statement / "
-            "sync_impl_definitions_from_parser / register_impl_definition (path resolution incl. the 8 search locations, export filter, "
-            "registration into the function/struct/interface/typedef/variable/enum/impl/constructor/destructor tables, qualified names, "
-            "loaded_modules): a changed binding always stems from an exported declaration (or an impl block), every export becomes bound, "
-            "a repeated import anywhere in a sequence is a no-op, any permutation of modules with disjoint (or identical, for diamonds) "
-            "registration steps yields tables equal as maps or an error in both orders, and an import equals local registration of the "
-            "exported declarations on all unqualified names. Five laws are refuted on the faithful model (known findings: hidden impl "
-            "blocks visible, array members of imported structs lost, impl statics not created, a module's own imports not loaded, "
-            "path components starting with 'cb'). The model is tied to the code on every run: all import DAGs over <=3 (quick) / <=5 "
-            "(thorough) generated modules in nested directories, every permutation and duplications of the import list, are run on the "
-            "real binary; the model's predicted bindings are checked name by name (positive uses + one undefined-name probe per hidden "
-            "name) and the importing program is compared with its inlined single-file form and all permuted/duplicated variants.",
-    "note": "Trusted: Coq kernel (vm_compute for refutation witnesses/examples), no axioms (Print Assumptions: closed); extraction via "
+            "sync_impl_definitions_from_parser / register_impl_definition as repaired (path resolution incl. the 8 search locations, "
+            "export filter, recursive execution of a module's own imports with the module marked loaded first, registration into the "
+            "function/struct/interface/typedef/variable/enum/impl/constructor/destructor/impl-static tables, qualified names, "
+            "loaded_modules): a changed binding always stems from an exported declaration (or an impl block) of a module this import "
+            "loaded; every loaded module is complete (its own imports loaded, its exports bound); a repeated import anywhere in a "
+            "sequence is a no-op; two successful permuted import sequences load the same modules and, for modules with disjoint (or "
+            "identical, for diamonds) registration steps, yield tables equal as maps; an import equals pasting every loaded file once "
+            "as local declarations on all unqualified names; the recursion bound of the model is immaterial. One law is refuted on the "
+            "faithful model (hidden impl blocks are visible; all of stdlib relies on it). The model is tied to the code on every run: "
+            "all import DAGs over <=3 (quick) / <=5 (thorough) generated modules in nested directories, import lists not closed under "
+            "the modules' own imports, every permutation and duplications, run on the real binary; the model's predicted bindings are "
+            "checked name by name (positive uses + one undefined-name probe per unbound name) and the importing program is compared "
+            "with its inlined single-file form and all permuted/duplicated variants; former defect witnesses are kept as corpus.",
+    "note": "Trusted: Coq kernel (vm_compute for the refutation witness/examples), no axioms (Print Assumptions: closed); extraction via "
             "ExtrOcamlBasic+ExtrOcamlString; the model is hand-written and tied by differential testing only. NOT modelled: the "
             "parse-time path RecursiveParser::processImport/resolveModulePath (only its hand-over of transitive impl blocks), ownership "
             "transfer of impl nodes, selective imports/aliases, generic-name mangling. imported_like_inlined is a table-level statement; "
-            "behavioural equality (statics included) is tested (oracle B), not proved. Cyclic imports (SIGSEGV at parse time) are "
-            "outside the model.",
+            "behavioural equality (statics included) is tested (oracle B), not proved. import_order_independent is stated for two "
+            "successful loads (error symmetry is not proved). Cyclic imports (SIGSEGV at parse time) are outside the model.",
 }
 
 # ------------------------------------------------------------------ abstract cases
@@ -322,7 +328,9 @@ def is_mangled(k, tab):
     return False
 
 
-def build_main(tab, single_seg_mods, reimport=None, blind=False, fparams=None):
+def build_main(tab, single_seg_mods, reimport=None, blind=False, fparams=None, parse_visible=None):
+    # parse_visible: type names the parser of the running file knows (exports of the modules it imports itself);
+    # generic structs and interface-typed variables can only be written with those (None = all)
     """main() that uses every name the model says is bound; returns (text, expectations) where
     expectations[idx] = (first '@' line demanded in block idx, last line demanded or None, what)."""
     body, exp = [], []
@@ -364,7 +372,7 @@ def build_main(tab, single_seg_mods, reimport=None, blind=False, fparams=None):
               "@f %d" % b, None, "function " + k)
     for n, k in enumerate(sorted(tab["S"])):
         generic, mems = tab["S"][k]
-        if generic and blind:
+        if generic and (blind or (parse_visible is not None and k not in parse_visible)):
             continue            # without the parse-time import the parser cannot read `B<int> v;`
         if generic:
             block(["%s<int> gv%d; gv%d.x = 4; println(\"@g\", gv%d.x);" % (k, n, n, n)], "@g 4", None, "generic struct " + k)
@@ -388,10 +396,13 @@ def build_main(tab, single_seg_mods, reimport=None, blind=False, fparams=None):
         for (i, s, ms) in tab["IM"]:
             if s != k:
                 continue
+            has_statics = any(st[0] == (i or "-") and st[1] == k for st in tab["ST"])
             for m, b in ms:
-                if tab["F"].get("%s::%s" % (k, m)) == b:
+                # (known finding C18-impl-static-direct-receiver: no direct call when the block has statics)
+                if tab["F"].get("%s::%s" % (k, m)) == b and not has_statics:
                     lines.append('int rm%d_%s = %s.%s(2); println("=", rm%d_%s);' % (n, m, v, m, n, m))
-            if i and i in tab["N"] and not blind:     # an interface-typed variable needs the parse-time import
+            if i and i in tab["N"] and not blind and (parse_visible is None or i in parse_visible):
+                # an interface-typed variable needs the parse-time import
                 lines.append("%s iv%d = %s;" % (i, n, v))
                 for m, b in ms:
                     lines.append('int ri%d_%s = iv%d.%s(3); println("=", ri%d_%s);' % (n, m, n, m, n, m))
@@ -621,8 +632,9 @@ def run_graph_case(impl, case, tab, tier, seed, oracle=True):
                 break
         blind = bool(case.get("prefix"))
         fparams = {st[2]: st[5] for m in mods for st in m["stmts"] if st[0] == "F" and len(st) > 5 and st[5]}
-        main_text, exp = build_main(tab, single, reimport=(reimp + (True,)) if reimp else None, blind=blind, fparams=fparams)
-        main_inl, _ = build_main(tab, set(), reimport=(reimp + (False,)) if reimp else None, blind=blind, fparams=fparams)
+        pv = set(st[2] for i in set(case["base"]) for st in mods[i]["stmts"] if st[0] in ("S", "N") and st[1])
+        main_text, exp = build_main(tab, single, reimport=(reimp + (True,)) if reimp else None, blind=blind, fparams=fparams, parse_visible=pv)
+        main_inl, _ = build_main(tab, set(), reimport=(reimp + (False,)) if reimp else None, blind=blind, fparams=fparams, parse_visible=pv)
         rng = rng_for(seed, "c18-variants", *case["seed_tag"])
         vs = variants_of(case, rng, tier)
         outs = []
@@ -657,9 +669,13 @@ def run_graph_case(impl, case, tab, tier, seed, oracle=True):
             rc, o, e = tree.run(impl, txt)
             runs += 1
             if not (rc == 1 and o.strip() == "start" and any(u in e for u in UNDEF)):
-                fails.append(("corr-hidden", {"what": what, "stmt": stmt, "rc": rc, "stdout": o[-300:], "stderr": e[-300:]},
-                              "%s is not bound in the model but usable on the implementation (rc=%d, %r)" % (what, rc, o[-80:]),
-                              True))       # concrete: something not exported/imported can be named
+                usable = (rc == 0 or o.strip() != "start")
+                fails.append(("corr-hidden" if o.startswith("start") else "corr-probe",
+                              {"what": what, "stmt": stmt, "rc": rc, "stdout": o[-300:], "stderr": e[-300:]},
+                              ("%s is not bound in the model but usable on the implementation (rc=%d, %r)" % (what, rc, o[-80:]))
+                              if o.startswith("start") else
+                              ("probe program for %s did not reach main: rc=%d %s" % (what, rc, first_err(e))),
+                              o.startswith("start")))   # concrete: something not exported/imported can be named
         nvar = 0
         if oracle and rc0 == 0:
             # B. oracle: every variant and the inlined program behave like the base program.
@@ -677,7 +693,7 @@ def run_graph_case(impl, case, tab, tier, seed, oracle=True):
             order = closure(mods, sorted(set(imps0)))
             # inlined form needs the same bindings minus qualified names: rebuild the base run without them
             if single:
-                main_nq, _ = build_main(tab, set(), reimport=(reimp + (True,)) if reimp else None, blind=blind, fparams=fparams)
+                main_nq, _ = build_main(tab, set(), reimport=(reimp + (True,)) if reimp else None, blind=blind, fparams=fparams, parse_visible=pv)
                 rcq, oq, eq = tree.run(impl, program_text(imps0, modpaths, case["local"], main_nq))
                 runs += 1
             else:
